@@ -93,3 +93,23 @@ Theorem C13_operand_access_precise :
   forall ir k v m, keeps m (read_op ir k m) /\ keeps_on_err m (write_op ir k v m).
 Proof. intros. split; [apply read_op_keeps | apply write_op_err_keeps]. Qed.
 Print Assumptions C13_operand_access_precise.
+
+(* ---- precision for EVERY data-processing, move, compare / test, shift / rotate, bit-field, swap and push / pop
+   opcode (100 opcodes, Proofs/PreciseProofs.v): when the instruction ends in a bus fault -- whichever operand it
+   was, read or write, whatever the addressing modes -- all sixteen registers (condition codes included) and the
+   four memories are exactly what they were before it started.  (state_kept m m' := ROM, display register, NVRAM
+   and RAM equal, and the register file equal.) *)
+From Dmd Require Import Proofs.PreciseProofs.
+
+Theorem C13_every_data_instruction_is_precise :
+  forall ir m e m',
+    precise_opcode (iopcode ir) = true -> exec ir m = Err (EBus e) m' -> state_kept m m'.
+Proof. exact bus_fault_leaves_state. Qed.
+Print Assumptions C13_every_data_instruction_is_precise.
+
+(* the list is not empty of interesting cases: it has the divide, field, swap and stack instructions *)
+Example C13_precise_opcodes_include :
+  precise_opcode 172 = true /\ precise_opcode 236 = true /\ precise_opcode 204 = true /\ precise_opcode 200 = true
+  /\ precise_opcode 28 = true /\ precise_opcode 160 = true /\ precise_opcode 32 = true /\ length
+     (filter precise_opcode (map Z.of_nat (seq 0 256))) = 100%nat.
+Proof. vm_compute. repeat split. Qed.
